@@ -146,7 +146,7 @@ var HardSkipInit = []string{
 	"golang.org/x/sys", "golang.org/x/tools/internal/gocommand", "golang.org/x/tools/internal/gopathwalk",
 	"golang.org/x/tools/internal/imports", "golang.org/x/tools/imports", "golang.org/x/tools/internal/event",
 	"golang.org/x/tools/internal/stdlib", "github.com/jessevdk/go-flags", "go/build", "go/types", "go/doc",
-	"regexp", "regexp/syntax", "text/template", "html/template", "net/http", "crypto", "encoding/json", "encoding/xml",
+	"text/template", "html/template", "net/http", "crypto", "encoding/json", "encoding/xml",
 	"math/big", "compress", "archive",
 }
 
